@@ -49,6 +49,9 @@ def run(tier):
     for name, ebnf, texts in FULL:
         cases.append({'label': 'full/' + name, 'ebnf': ebnf, 'texts': texts})
         cases.append({'label': 'json/' + name, 'ebnf': ebnf, 'texts': texts, 'json': 'roundtrip'})
+    # string parameters that look like other literals of the grammar language keep their type through pretty()
+    cases.append({'label': 'string-params-like-literals', 'texts': ['x', 'y'],
+                  'ebnf': "start = a b $ ;\na['123', 'True', 'null', 'x y', plain, k='0x10', j='false'] = 'x' ;\nb['None', '1.5', 7, True] = ['y'] ;\n"})
     from ..derived import ANTLR
     for name, g4, texts in ANTLR:          # "however obtained": models translated from ANTLR grammars
         cases.append({'label': 'antlr/' + name, 'antlr': g4, 'name': name.capitalize(), 'ebnf': '', 'texts': texts,
